@@ -328,21 +328,141 @@ BUILTIN_METHOD_TYPES = ('wrapper_descriptor', 'method_descriptor', 'classmethod_
                         'builtin_function_or_method')
 
 
+def slot_entry(f):
+    """Slot string of one raw class-dictionary entry"""
+    if f is None:
+        return 'none'
+    if isinstance(f, types.FunctionType):
+        # calling a generator function runs none of its body (user code starts at next())
+        return 'other' if f.__code__.co_flags & 0x20 else 'user'
+    if type(f).__name__ in BUILTIN_METHOD_TYPES and type(f).__module__ == 'builtins':
+        return 'b:' + type(f).__name__
+    return 'other'
+
+
 def slot_of(t, n):
     """Slot string (mirrors Model/ObjModel.Slot): what `_PyType_Lookup(t, n)` finds, classified by the
     harness itself from the class dictionaries (never through jedi)"""
     for k in t.__mro__:
         if n in vars(k):
-            f = vars(k)[n]
-            if f is None:
-                return 'none'
-            if isinstance(f, types.FunctionType):
-                # calling a generator function runs none of its body (user code starts at next())
-                return 'other' if f.__code__.co_flags & 0x20 else 'user'
-            if type(f).__name__ in BUILTIN_METHOD_TYPES and type(f).__module__ == 'builtins':
-                return 'b:' + type(f).__name__
-            return 'other'
+            return slot_entry(vars(k)[n])
     return 'absent'
+
+
+def describe_mro_slots(t, names=('__bool__', '__len__')):
+    """List ClassSlots JSON (mirrors Model/ObjModel.ClassSlots): per class of `t.__mro__`, in MRO order,
+    the raw entries its own `__dict__` stores under the given special-method names"""
+    return [[{'n': n, 's': slot_entry(vars(k)[n])} for n in names if n in vars(k)] for k in t.__mro__]
+
+
+# ------------------------------------------------------------------ classes with several bases
+
+# builtin bases (at most one per class: their instance layouts conflict) and a constructor argument
+BUILTIN_BASES = {
+    'list': '[K(), 2]', 'tuple': '(K(), 2)', 'dict': "{0: K(), 'k': 1}", 'str': "'ab'", 'bytes': "b'ab'",
+    'bytearray': "b'ab'", 'set': '[1, 2]', 'frozenset': '[1]',          # __len__, no __bool__
+    'int': '3', 'float': '0.5',                                          # __bool__, no __len__
+}
+NO_BOOL_BASES = ('list', 'tuple', 'dict', 'str', 'bytes', 'bytearray', 'set', 'frozenset')
+MIXIN_PROTOCOLS = {
+    '__bool__': 'return True', '__len__': 'return 2', '__iter__': 'return iter([K()])',
+    '__getitem__': "return 'item'",
+}
+
+
+def _mixin(name, defs, base=''):
+    """defs: name -> 'user' | 'none'"""
+    lines = ['class %s%s:' % (name, '(%s)' % base if base else '')]
+    for n, kind in defs.items():
+        if kind == 'none':
+            lines.append('    %s = None' % n)
+        else:
+            lines.append('    def %s(self%s):' % (n, ', k' if n == '__getitem__' else ''))
+            lines.append('        _hit(%r, self)' % n)
+            lines.append('        ' + MIXIN_PROTOCOLS[n])
+    if len(lines) == 1:
+        lines.append('    pass')
+    return lines
+
+
+def gen_proto_mro(rng, n_triples=6, n_deep=4):
+    """A world of classes with SEVERAL bases: one builtin container, a builtin number and user mixins
+    that define the truth-value / container special methods, combined in every order (all ordered
+    pairs, a sample of the ordered triples, grandchildren, own redefinitions).  What a special method
+    resolves to then depends on the order of the MRO *and* of the names asked.
+    Returns (source, info): info['objs'] = [{'name', 'cls', 'bases'}], info['box'] = path prefix that
+    reaches the same objects through attribute / item steps."""
+    import itertools
+    b1 = rng.choice(NO_BOOL_BASES)
+    b2 = rng.choice(sorted(BUILTIN_BASES))
+    lines = []
+    lines += _mixin('MB', {'__bool__': 'user'})
+    lines += _mixin('ML', {'__len__': 'user'})
+    xdefs = {}
+    for n in MIXIN_PROTOCOLS:
+        r = rng.random()
+        if r < 0.45:
+            xdefs[n] = 'user'
+        elif r < 0.6:
+            xdefs[n] = 'none'
+    lines += _mixin('MX', xdefs)
+    lines += _mixin('MP', {})
+    atoms = [b1, 'MB', 'ML', 'MX', 'MP']
+    if b2 != b1:
+        atoms.append(b2)
+
+    def arg(bases):
+        bs = [b for b in bases if b in BUILTIN_BASES]
+        return BUILTIN_BASES[bs[0]] if bs else ''
+
+    def valid(bases):
+        return len([b for b in bases if b in BUILTIN_BASES]) <= 1
+
+    classes = []      # (name, bases tuple, ctor arg)
+    for a in atoms:
+        if a not in BUILTIN_BASES:
+            classes.append((None, (a,), ''))
+    pairs = [p for p in itertools.permutations(atoms, 2) if valid(p)]
+    triples = [p for p in itertools.permutations(atoms, 3) if valid(p)]
+    chosen = pairs + rng.sample(triples, min(n_triples, len(triples)))
+    for bases in chosen:
+        classes.append((None, bases, arg(bases)))
+    objs = []
+    named = []
+    i = 0
+    for _, bases, a in classes:
+        if len(bases) == 1:
+            cname = bases[0]
+        else:
+            cname = 'P%d' % i
+            i += 1
+            own = {}
+            if rng.random() < 0.15:
+                own[rng.choice(['__bool__', '__len__'])] = rng.choice(['user', 'none'])
+            body = _mixin(cname, own, ', '.join(bases))
+            lines += body
+        named.append((cname, bases, a))
+    # one more level: children of the classes above, optionally with one more mixin in front / behind
+    multi = [c for c in named if len(c[1]) > 1]
+    for j in range(min(n_deep, len(multi))):
+        parent, pbases, a = rng.choice(multi)
+        extra = rng.choice([None, 'MB', 'ML', 'MP'])
+        if extra is not None and extra in pbases:
+            extra = None                                    # would not linearise in front of its subclass
+        bases = (parent,) if extra is None else rng.choice([(parent, extra), (extra, parent)])
+        cname = 'G%d' % j
+        lines += _mixin(cname, {}, ', '.join(bases))
+        named.append((cname, bases, a))
+    for cname, bases, a in named:
+        on = 'p_' + cname.lower()
+        lines.append('%s = %s(%s)' % (on, cname, a))
+        objs.append({'name': on, 'cls': cname, 'bases': list(bases)})
+    lines.append('class Box:')
+    lines.append('    pass')
+    lines.append('box = Box()')
+    lines.append("box.a = {'k': [{%s}]}" % ', '.join('%r: %s' % (o['name'], o['name']) for o in objs))
+    src = PRELUDE + '\n'.join(lines) + '\n'
+    return src, {'objs': objs, 'builtin': [b1, b2], 'mx': xdefs}
 
 
 def describe_ty(obj, reg):
